@@ -257,6 +257,7 @@ def texts(rnd, n):
            '99:99:99', '9:99', '99:59', '100:00', '1:00:00:00', 'abc', '1e3', '1,000', '1 00', '-5', '+5', '5.', '.5', '5..5', '5:', ':5', '6.5.4.3', '2.45',
            '2.46', '2.94', '2.95', '8.95', '10.74', '10.75', '23.12', '27.74', '27.75', '104.80', '125.76', '125.77', '1.8', '18', '180', '7000', '7000.5',
            '9999', '10000', '09999', '1234.0', '12 34', '8:', '6,50', '6,5,0', '１２.5', '٣.5', '5\n', '\t12.5 ',
+           '99.994', '99.995', '99.999', '99.9951', '59.995', '59.996', '9.995', '99:59.995', '99:59.999', '59:59.999', '9:59.995', '99.95', '99.949',
            '100%', '%s', '12.5%', '1:%d', '%(t)s', '{0}', '12.{}', '\\', '$1', '12.5$', '%', '1:2%', '9%9']
     # absurdly long digit runs (PAT_PERF does not bound the last field): inf / overflow inside the heuristics
     for big in ('9' * 309, '9' * 400, '1' + '0' * 320):
